@@ -401,6 +401,8 @@ def list_fields(a):
         v = getattr(a, f, None)
         if isinstance(v, list) and v and all(isinstance(x, ast.AST) or x is None for x in v):
             out.append((f, len(v)))
+        elif isinstance(a, (ast.Global, ast.Nonlocal)) and isinstance(v, list) and v:
+            out.append((f, len(v)))         # list of identifiers, returned as a Tuple of Names under promote=True
     return out
 
 
